@@ -202,6 +202,13 @@ Theorem c04_windowed_complexity_sound :
 Proof. vm_compute. reflexivity. Qed.
 Print Assumptions c04_windowed_complexity_sound.
 
+(* preprocess.rs reorder: only row-local column definitions are pulled in front of a take (a window function
+   defined after `take n` must see the n taken rows only); nothing is pulled in front of a filter/aggregate/... *)
+Theorem c04_reorder_keeps_window_after_take :
+  forallb (fun c => implb (reorder_before_take c) (row_local c)) all_cx && negb reorder_before_other = true.
+Proof. vm_compute. reflexivity. Qed.
+Print Assumptions c04_reorder_keeps_window_after_take.
+
 (* ---------------------------------------------------------------- (d) rows are kept *)
 Theorem c04_window_preserves_rows : forall fr keys cols l,
   (length (Rel.apply (TWinF fr keys cols) l) = length l /\
